@@ -120,17 +120,29 @@ func build(hs hist, viol func(clause, facts, detail string)) (*world, bool) {
 		}
 	}
 	for _, o := range hs.Ops {
+		if !w.apply(hs.Kind, o) {
+			return w, false
+		}
+	}
+	return w, true
+}
+
+// apply executes one operation of the alphabet on the real store (and on the reference log).
+func (w *world) apply(kind string, o sop) bool {
+	viol := w.viol
+	hs := hist{Kind: kind}
+	{
 		switch o.K {
 		case "append":
 			if err := w.appendOne(); err != nil {
 				viol("append-failed", "", err.Error())
-				return w, false
+				return false
 			}
 		case "save":
 			off := w.offAt(o.Pos)
 			if err := w.hd.Sub.SaveOffset(bg, o.ID, off); err != nil {
 				viol("save-offset-failed", fmt.Sprintf("offset=%q", off), err.Error())
-				return w, false
+				return false
 			}
 			w.saved[o.ID] = off
 		case "save-cancelled":
@@ -154,7 +166,7 @@ func build(hs hist, viol func(clause, facts, detail string)) (*world, bool) {
 			hd, err := w.med.Open()
 			if err != nil {
 				viol("reopen-failed", "", err.Error())
-				return w, false
+				return false
 			}
 			w.hd = hd
 		case "second":
@@ -181,7 +193,7 @@ func build(hs hist, viol func(clause, facts, detail string)) (*world, bool) {
 			m2.Destroy()
 		}
 	}
-	return w, true
+	return true
 }
 
 func jsonEqual(a, b []byte) bool {
@@ -403,7 +415,7 @@ func searchStructure(c *h.Check, kind string, preload, depth int, idx *int) {
 	// exec runs one history on the real store; full=true applies the complete query
 	// battery (new states), full=false the light one (transitions into states already
 	// examined: every transition is executed, not only one representative per state).
-	exec := func(ops []sop, full bool) {
+	exec := func(ops []sop, full, closing bool) {
 		*idx++
 		if !c.Mine(*idx) || c.TimeUp() {
 			return
@@ -423,6 +435,22 @@ func searchStructure(c *h.Check, kind string, preload, depth int, idx *int) {
 		} else if ok {
 			q = w.light()
 		}
+		// Closing sequence for a history the search does not extend (it reaches a state
+		// examined before, or the depth limit): reads are not part of the alphabet because
+		// they do not change a conforming store - but they may change what an implementation
+		// remembers (a cached tail, a warmed-up statement, a pooled reader) - so after the
+		// queries above the log is extended, queried completely, an offset is saved, the
+		// store is reopened and queried again.
+		if ok && closing {
+			L := len(w.log)
+			if w.apply(kind, sop{K: "append"}) {
+				q += w.battery()
+				if w.apply(kind, sop{K: "save", ID: "a", Pos: L}) && w.apply(kind, sop{K: "reopen"}) && w.apply(kind, sop{K: "append"}) {
+					q += w.light()
+				}
+			}
+			c.Count("histories_closed_with_the_closing_sequence", 1)
+		}
 		w.close()
 		if full {
 			c.Count("states", 1)
@@ -435,7 +463,7 @@ func searchStructure(c *h.Check, kind string, preload, depth int, idx *int) {
 			c.Sample(map[string]any{"store": kind, "preload": preload, "ops": fmt.Sprint(ops), "queries": q, "full_battery": full})
 		}
 	}
-	exec(nil, true)
+	exec(nil, true, false)
 	for d := 0; d < depth && len(frontier) > 0; d++ {
 		var next []node
 		for _, n := range frontier {
@@ -481,11 +509,11 @@ func searchStructure(c *h.Check, kind string, preload, depth int, idx *int) {
 				}
 				k := fmt.Sprintf("%d|a%s,b%s%s", LL, saved["a"], saved["b"], tail)
 				if seen[k] {
-					exec(ops, false)
+					exec(ops, false, true)
 					continue
 				}
 				seen[k] = true
-				exec(ops, true)
+				exec(ops, true, d == depth-1)
 				next = append(next, node{ops})
 			}
 		}
